@@ -38,7 +38,7 @@ class Ambiguous(Exception):
 
 
 class Item:
-    __slots__ = ('key', 'types', 'id', 'value', 'expire', 'tag', 'binary_file',
+    __slots__ = ('key', 'types', 'id', 'value', 'expire', 'expire_alt', 'tag', 'binary_file',
                  'stored_seq', 'used_seq', 'reads')
 
     def __init__(self, key, kid):
@@ -47,6 +47,7 @@ class Item:
         self.id = kid
         self.value = None
         self.expire = None
+        self.expire_alt = None     # other admissible instants: (any clock read of the storing call) + ttl
         self.tag = None
         self.binary_file = False
         # API-level policy keys (C09): logical sequence numbers
@@ -95,6 +96,7 @@ class RefCache:
         self.seq += 1
         self.culling = False
         self.explicit_cull = False
+        self.reads = tuple(reads)
         if reads:
             self.win = (reads[0], reads[-1])
             t0, t1 = self.win
@@ -133,12 +135,19 @@ class RefCache:
             it.types.add(type(key))
         it.value = value
         it.binary_file = self._is_binary_file(value, read)
-        it.expire = None if expire is None else ('ttl', expire)   # resolved by adopt()
+        self._set_expire(it, expire)
         it.tag = tag
         it.stored_seq = self.seq
         it.used_seq = self.seq
         it.reads = 0
         return it
+
+    def _set_expire(self, it, ttl):
+        if ttl is None:
+            it.expire, it.expire_alt = None, None
+        else:
+            it.expire = self.reads[0] + ttl
+            it.expire_alt = (ttl, frozenset(r + ttl for r in self.reads))
 
     def _remove(self, it):
         self.items.remove(it)
@@ -264,7 +273,7 @@ class RefCache:
         it = self.find(key)
         if it is None or not self.live(it):
             return False
-        it.expire = None if expire is None else ('ttl', expire)
+        self._set_expire(it, expire)
         return True
 
     def op_len(self):
